@@ -135,6 +135,10 @@ func content(kind string) string {
 		return protoHead + " \t  " + gpLine + "\n" + protoBody
 	case "nogp":
 		return protoHead + protoBody
+	case "gp_big": // the option behind more than two read buffers of comments and definitions
+		return protoHead + flat(padding(4093, 0)) + flat(padding(4800, 2)) + gpLine + "\n" + protoBody + flat(padding(9000, 0))
+	case "nogp_big": // no option; a commented-out one across a buffer boundary
+		return protoHead + flat(padding(4096-len(protoHead)-5, 2)) + "// option go_package = \"x\";\n" + protoBody + flat(padding(9000, 2))
 	case "nogp_defs": // several definitions, never an option
 		return protoHead + "import \"other.proto\";\n\n" + protoBody + "\n" + protoEnum + "\n" + protoService
 	case "gofile":
@@ -162,7 +166,7 @@ func content(kind string) string {
 
 // ground truth: does a file with this content declare option go_package?
 func declaresGP(kind string) bool {
-	return kind == "gp" || strings.HasPrefix(kind, "gpat_") || kind == "gp_nospace" || kind == "gp_spaces" ||
+	return kind == "gp" || kind == "gp_big" || strings.HasPrefix(kind, "gpat_") || kind == "gp_nospace" || kind == "gp_spaces" ||
 		kind == "gp_tab" || kind == "gp_newline"
 }
 
@@ -651,11 +655,13 @@ func runOne(e *env, id, root, mod, cwdAbs string, spec Spec, fs int, world *Node
 // ---------------------------------------------------------------- generators
 
 type gen struct {
-	r      *rand.Rand
-	files  int
-	budget int
-	tree   []Entry
-	seen   map[string]bool
+	r        *rand.Rand
+	files    int
+	budget   int
+	tree     []Entry
+	seen     map[string]bool
+	maxDepth int  // 0: the property's quantifier (3)
+	wide     bool // beyond the quantifier's caps: long names, big files, many entries per directory
 }
 
 func (g *gen) pick(xs []string) string { return xs[g.r.IntN(len(xs))] }
@@ -688,6 +694,13 @@ func (g *gen) fill(dir string, depth int, edge bool, inputName string) {
 	if depth == 0 {
 		n = 1 + g.r.IntN(5)
 	}
+	if g.wide {
+		n += g.r.IntN(6)
+	}
+	maxDepth := 3
+	if g.maxDepth > 0 {
+		maxDepth = g.maxDepth
+	}
 	for i := 0; i < n && g.files < g.budget; i++ {
 		x := g.r.IntN(100)
 		switch {
@@ -703,6 +716,16 @@ func (g *gen) fill(dir string, depth int, edge bool, inputName string) {
 			case x < 50:
 				c = "nogp_defs"
 			}
+			if g.wide {
+				switch g.r.IntN(6) {
+				case 0:
+					c = "gp_big"
+				case 1:
+					c = "nogp_big"
+				case 2:
+					name = strings.Repeat("averylongprotofilename", 1+g.r.IntN(6)) + ".proto"
+				}
+			}
 			if g.add(Entry{Path: join(dir, name), Kind: "file", Content: c}) {
 				g.files++
 			}
@@ -716,10 +739,13 @@ func (g *gen) fill(dir string, depth int, edge bool, inputName string) {
 				g.files++
 			}
 		default:
-			if depth >= 3 {
+			if depth >= maxDepth {
 				continue
 			}
 			name := g.pick(dirNames)
+			if g.wide && g.r.IntN(4) == 0 {
+				name = strings.Repeat("longdirectoryname", 1+g.r.IntN(8)) + fmt.Sprint(g.r.IntN(10))
+			}
 			if edge {
 				switch g.r.IntN(3) {
 				case 0:
@@ -745,8 +771,11 @@ var prefixes = []string{"github.com/foo/bar", "example.com/x", "p", "corp/protos
 var oddPrefixes = []string{"example.com/x/", "a//b", "./p", "p/../q", "/abs/pre", "../up", "example.com/./v", "x/"}
 
 func genSpec(r *rand.Rand, kind string) Spec {
-	edge := kind == "edge"
+	edge := kind == "edge" || kind == "wide"
 	g := &gen{r: r, budget: 3 + r.IntN(10), seen: map[string]bool{}}
+	if kind == "wide" { // beyond the caps of the property's quantifier (used when a tie breaks, and in the thorough tier)
+		g.wide, g.maxDepth, g.budget = true, 4+r.IntN(4), 13+r.IntN(30)
+	}
 	layouts := [][2]string{ // input, cwd
 		{".", "."}, {"protos", "."}, {"protos", "protos"}, {"api/v1", "."}, {"protos", "tools"}, {"api/v1", "api"},
 	}
@@ -784,6 +813,9 @@ func genSpec(r *rand.Rand, kind string) Spec {
 	ninc := r.IntN(3)
 	if edge && ninc == 0 {
 		ninc = 1
+	}
+	if g.wide {
+		ninc = r.IntN(9)
 	}
 	subdirs := []string{}
 	for _, e := range g.tree {
@@ -996,10 +1028,41 @@ var scanFrags = []string{"option", "go_package", "=", "\"x\"", "'y'", " ", "\n",
 
 // ScanCase is the JSON side of one run of protoFileHasGoPackage.
 type ScanCase struct {
-	Kind    string `json:"kind"`
-	Content string `json:"scan_content"`
-	Got     bool   `json:"got"`
-	Err     string `json:"err,omitempty"`
+	Kind    string  `json:"kind"`
+	Content string  `json:"scan_content"`          // contents up to 16 KB literally
+	Pieces  []piece `json:"scan_pieces,omitempty"` // longer ones as (string, repetitions) pieces
+	Len     int     `json:"len"`
+	Got     bool    `json:"got"`
+	Err     string  `json:"err,omitempty"`
+}
+
+// scanOne runs protoFileHasGoPackage on the file under recover() and a watchdog: a panic or a
+// scanner that does not return is an answer (an error) about this content, not the end of the run
+func scanOne(p string) (got bool, errText string, hung bool) {
+	type res struct {
+		got bool
+		err string
+	}
+	ch := make(chan res, 1)
+	go func() {
+		defer func() {
+			if r := recover(); r != nil {
+				ch <- res{false, fmt.Sprintf("panic: %v", r)}
+			}
+		}()
+		g, err := ggen.ProtoFileHasGoPackageForVerif(p)
+		e := ""
+		if err != nil {
+			e = err.Error()
+		}
+		ch <- res{g, e}
+	}()
+	select {
+	case r := <-ch:
+		return r.got, r.err, false
+	case <-time.After(10 * time.Second):
+		return false, "no answer within 10 s (scanner does not terminate)", true
+	}
 }
 
 func scanContents(r *rand.Rand, exhaustLen, nRandom int) []string {
@@ -1058,6 +1121,181 @@ func scanContents(r *rand.Rand, exhaustLen, nRandom int) []string {
 	return out
 }
 
+// piece: a string repeated N times; long contents are written as lists of pieces so that the
+// Gallina case term stays small (repN n s is computed inside Coq)
+type piece struct {
+	S string `json:"s"`
+	N int    `json:"n"`
+}
+
+func flat(ps []piece) string {
+	var b strings.Builder
+	for _, p := range ps {
+		for i := 0; i < p.N; i++ {
+			b.WriteString(p.S)
+		}
+	}
+	return b.String()
+}
+
+func plen(ps []piece) int {
+	n := 0
+	for _, p := range ps {
+		n += len(p.S) * p.N
+	}
+	return n
+}
+
+func gPieces(ps []piece) string {
+	if len(ps) == 1 && ps[0].N == 1 {
+		return gContent(ps[0].S)
+	}
+	items := []string{}
+	for _, p := range ps {
+		switch {
+		case p.N <= 0 || p.S == "":
+		case p.N == 1:
+			items = append(items, gContent(p.S))
+		default:
+			items = append(items, fmt.Sprintf("(repN %d%%N %s)", p.N, gContent(p.S)))
+		}
+	}
+	return "(pieces " + gal.List(items) + ")"
+}
+
+// padding returns exactly n bytes of proto source that is not a declaration and leaves the scanner
+// between tokens: kind 0 short comment lines, 1 one very long comment line (longer than any line
+// buffer), 2 message definitions and blank lines, 3 a long string literal inside an option.
+func padding(n, kind int) []piece {
+	if n <= 0 {
+		return nil
+	}
+	out := []piece{}
+	switch kind {
+	case 1:
+		if n >= 3 {
+			return []piece{{"//", 1}, {"y", n - 3}, {"\n", 1}}
+		}
+	case 2:
+		unit := "message Pad {\n  int32 f = 1;\n}\n\n"
+		out = append(out, piece{unit, n / len(unit)})
+	case 3:
+		head, tail := "option java_package = \"", "\";\n"
+		if n >= len(head)+len(tail) {
+			return []piece{{head, 1}, {"p", n - len(head) - len(tail)}, {tail, 1}}
+		}
+	default:
+		unit := "// padding: nothing is declared on this line\n"
+		out = append(out, piece{unit, n / len(unit)})
+	}
+	if rest := n - plen(out); rest > 0 {
+		if rest >= 3 && kind != 2 {
+			out = append(out, piece{"//", 1}, piece{"z", rest - 3}, piece{"\n", 1})
+		} else {
+			out = append(out, piece{" ", rest - 1}, piece{"\n", 1})
+		}
+	}
+	return out
+}
+
+// longContents: files in which every character of a declaration (and of the near misses: a
+// commented-out declaration, one inside a string literal, an escaped quote) lands on a multiple of
+// the usual buffer sizes — the buffer-boundary classes of any reader-based scanner
+func longContents(thorough bool) [][]piece {
+	out := [][]piece{}
+	decls := []string{
+		"option go_package = \"example.com/x\";",  // declares
+		"option go_package=\"x\";",                 // declares, no blanks
+		"// option go_package = \"x\";\n",          // declares nothing
+		"/* option go_package = \"x\"; */",         // declares nothing
+		"option s = \"a\\\"option go_package = \";", // declares nothing: escaped quote inside a literal
+		"option\tgo_package\n=\n'x'",               // declares
+	}
+	tail := "\nmessage M {\n  int32 f = 1;\n}\n"
+	borders := func(d string) []int { // offsets around the borders of the declaration's tokens
+		js := []int{0, 1, 2, len(d) - 1, len(d)}
+		for i := 1; i < len(d); i++ {
+			if (d[i] == ' ' || d[i] == '=' || d[i] == '"' || d[i] == '\t' || d[i] == '\n' || d[i] == '_') && i+1 <= len(d) {
+				js = append(js, i-1, i, i+1)
+			}
+		}
+		sort.Ints(js)
+		out := []int{}
+		for i, j := range js {
+			if j >= 0 && j <= len(d) && (i == 0 || j != js[i-1]) {
+				out = append(out, j)
+			}
+		}
+		return out
+	}
+	all := func(d string) []int {
+		out := make([]int, len(d)+1)
+		for i := range out {
+			out[i] = i
+		}
+		return out
+	}
+	// one content: the declaration's character j on offset b; followed by more than another block
+	// when withTail (a reader that keeps pieces of its buffer sees them overwritten by the next read)
+	add := func(b, j, k int, d string, withTail bool) {
+		if j > b {
+			return
+		}
+		c := append(append([]piece{}, padding(b-j, k)...), piece{d + tail, 1})
+		if withTail {
+			c = append(c, padding(b+300, (k+2)%4)...)
+		}
+		out = append(out, c)
+	}
+	if thorough {
+		for _, b := range []int{512, 1024, 2048, 4096, 8192, 12288, 16384, 32768, 65536, 131072, 196608} {
+			for di, d := range decls {
+				js := all(d)
+				if b > 16384 || di > 0 {
+					js = borders(d)
+				}
+				for _, j := range js {
+					for k := 0; k < 4; k++ {
+						if di > 0 && k != 0 {
+							continue
+						}
+						add(b, j, k, d, b <= 65536)
+					}
+				}
+			}
+		}
+	} else {
+		for _, b := range []int{512, 4096} { // every character of every spelling on the boundary
+			for _, d := range decls {
+				for _, j := range all(d) {
+					add(b, j, 0, d, true)
+				}
+			}
+		}
+		for _, d := range decls[:3] {
+			for _, j := range borders(d) {
+				add(8192, j, 0, d, true)
+			}
+		}
+		for _, j := range []int{0, 3, 7, 12, 18, 20} {
+			add(65536, j, 0, decls[0], false)
+		}
+		add(65536, 3, 0, decls[0], true)
+		for _, b := range []int{512, 4096, 8192} { // the other kinds of padding
+			for k := 1; k < 4; k++ {
+				for _, j := range []int{0, 3, 9, 18} {
+					add(b, j, k, decls[0], true)
+				}
+			}
+		}
+		add(65536, 9, 1, decls[0], false) // after a line of 64 KiB
+	}
+	// two declarations' worth of blocks without any declaration, and a declaration at the very end
+	out = append(out, append(padding(20000, 0), piece{tail, 1}), append(padding(70000, 1), piece{tail, 1}),
+		append(padding(20000, 2), piece{decls[0], 1}))
+	return out
+}
+
 func scanMain(seed uint64, outp, work string, exhaustLen, nRandom int) {
 	r := gal.NewRand(seed)
 	dir := filepath.Join(work, "scan")
@@ -1067,16 +1305,32 @@ func scanMain(seed uint64, outp, work string, exhaustLen, nRandom int) {
 	defer os.RemoveAll(dir)
 	o := gal.NewOut(outp)
 	p := filepath.Join(dir, "f.proto")
+	hangs := 0
+	contents := [][]piece{}
 	for _, c := range scanContents(r, exhaustLen, nRandom) {
+		contents = append(contents, []piece{{c, 1}})
+	}
+	contents = append(contents, longContents(exhaustLen >= 3)...)
+	for _, ps := range contents {
+		c := flat(ps)
 		if err := os.WriteFile(p, []byte(c), 0o644); err != nil {
 			panic(err)
 		}
-		got, err := ggen.ProtoFileHasGoPackageForVerif(p)
-		sc := ScanCase{Kind: "scan", Content: c, Got: got}
-		if err != nil {
-			sc.Err = err.Error()
+		got, errText, hung := scanOne(p)
+		sc := ScanCase{Kind: "scan", Got: got, Err: errText, Len: len(c)}
+		if len(c) <= 16384 {
+			sc.Content = c
+		} else {
+			sc.Pieces = ps
 		}
-		o.Case("{| sc_content := "+gContent(c)+"; sc_got := "+gal.Bool(got)+"; sc_err := "+gal.Bool(err != nil)+" |}", sc)
+		o.Case("{| sc_content := "+gPieces(ps)+"; sc_got := "+gal.Bool(got)+"; sc_err := "+gal.Bool(errText != "")+" |}", sc)
+		if hung {
+			hangs++
+			p = filepath.Join(dir, fmt.Sprintf("f%d.proto", hangs)) // the stuck goroutine keeps the old file
+			if hangs >= 3 {
+				break // three contents on which the scanner does not return are enough
+			}
+		}
 	}
 	o.Close()
 }
@@ -1148,7 +1402,7 @@ func main() {
 		specs = corpus()
 	case "nearmiss":
 		specs = nearMissCorpus()
-	case "random", "edge":
+	case "random", "edge", "wide":
 		for i := 0; i < *n; i++ {
 			specs = append(specs, genSpec(r, *mode))
 		}
